@@ -13,8 +13,8 @@ ANCHORS = [
 ]
 REQUIRED_MONITORS = ["truth@setup.cov_mm", "truth@setup.dat", "truth@SSI_fast", "truth@SSI_legacy", "mpe@setup"]
 ALL_STATES = [f"{s}|{r}|{b}|{m}" for s in ("real", "complex") for r in ("ref=all", "ref=subset", "ref=single")
-              for b in ("br=nu+1", "br>nu+1") for m in ("cov_mm", "dat")]
-REQUIRED_STATES = []
+              for b in ("br=nu+1", "br>nu+1") for m in ("cov_mm", "dat")] + ["mpe: two modes inside each other's default tolerance"]
+REQUIRED_STATES = ["mpe: two modes inside each other's default tolerance"]
 RULE = ("seeded random systems (m 1..6, real/complex shapes, xi 0.2..8 %, f in (0.02,0.45) fs, 2..8 channels, any reference "
         "subset whose numerical observability index nu is finite, br >= nu+1, records 400..3000 samples); a case is "
         "non-trivial when the guards hold (cond(H) <= 1e8, sigma_2m/sigma_2m+1 >= 1e6) and the monitors judged it; distinct = "
@@ -42,6 +42,14 @@ def draw_system(rng, real_only=False, mmax=6):
     cplx = (not real_only) and bool(rng.integers(0, 2))
     xi_rng = (0.002, 0.08)
     fn, xi, Phi, lam = gen.make_system(rng, m, nch, fs, cplx, xi_rng)
+    if m >= 2 and rng.random() < 0.25:
+        # a pair of close modes (2..4 % apart): both lie inside the default extraction tolerance of each other
+        j = int(rng.integers(0, m - 1))
+        f_new = fn[j] * (1 + rng.uniform(0.02, 0.04))
+        if f_new < (fn[j + 2] * 0.98 if j + 2 < m else 0.45 * fs):
+            fn = fn.copy()
+            fn[j + 1] = f_new
+            lam = 2 * np.pi * fn * (-xi + 1j * np.sqrt(1 - xi**2))
     kind = int(rng.integers(0, 3))
     if kind == 0:
         ref = list(range(nch))
@@ -152,7 +160,11 @@ def run_setup(ctx, case, rng, default_hc):
         ctx.state(st)
         ctx.nontrivial(("setup", default_hc, m, nch, len(ref), extra, cplx, meth, round(fs, 3)))
         # extraction at that order
-        ss.mpe("a", sel_freq=[float(f) for f in fn], order=o, rtol=1e-3)
+        close = m >= 2 and np.min(np.diff(fn) / fn[:-1]) < 0.05
+        rtol_mpe = 5e-2 if rng.random() < 0.5 else 1e-3  # the default tolerance and a tight one
+        ss.mpe("a", sel_freq=[float(f) for f in fn], order=o, rtol=rtol_mpe)
+        if close and rtol_mpe == 5e-2:
+            ctx.state("mpe: two modes inside each other's default tolerance")
         ctx.ev("mpe@setup")
         res = alg.result
         Fn = np.atleast_1d(res.Fn)
